@@ -16,7 +16,7 @@ RULE = ("random edit histories (5-30 operations) on one object of each of the te
 TIERS = {"quick": {"shards": 8, "cases": 3000}, "thorough": {"shards": 16, "cases": 40000}}
 FLOOR_BASE = {"quick": 450, "thorough": 15000}    # case counts the floors below were calibrated for; the launcher scales them
 TYPES = ["QUBO", "PUBO", "PCBO", "QUSO", "PUSO", "PCSO", "QUBOMatrix", "PUBOMatrix", "QUSOMatrix", "PUSOMatrix"]
-OPS = ["cancel_top", "set", "set0", "setdup", "iadd_item", "isub_item", "imul_item", "cancel", "iadd0", "iadd", "isub", "imul",
+OPS = ["permute_mapping", "cancel_top", "set", "set0", "setdup", "iadd_item", "isub_item", "imul_item", "cancel", "iadd0", "iadd", "isub", "imul",
        "idiv", "ipow", "update", "clear", "refresh", "copy", "derive", "constraint", "observe", "setbad"]
 
 
@@ -170,6 +170,18 @@ def case(ctx, rng, idx):
                 k = rng.choice(list(m)) if (m and rng.random() < 0.7) else rkey()
                 desc += [k]
                 m[k] -= m[k]
+            elif op == "permute_mapping":
+                # documented API: a user mapping that is a bijection onto 0..n-1; later edits must extend it consistently
+                if not labelled or not m.mapping:
+                    continue
+                vs = list(m.mapping)
+                perm = list(range(len(vs)))
+                rng.shuffle(perm)
+                if rng.random() < 0.5:
+                    m.set_mapping({v: perm[i] for i, v in enumerate(vs)})
+                else:
+                    m.set_reverse_mapping({perm[i]: v for i, v in enumerate(vs)})
+                desc += [perm]
             elif op == "cancel_top":
                 # every term of the variable registered last disappears, the variable stays registered (stale top label)
                 top = None
